@@ -1061,6 +1061,8 @@ def run_layout_v2(content, edits, want_ast):
         obs["model_seg_problem"] = mprob or meprob
     else:
         obs["mpieces"], obs["mepieces"] = mp, mep
+        if len(x) <= MAX_TEXTSEG_CHARS and len(ex) <= MAX_TEXTSEG_CHARS:
+            obs["mtext"], obs["metext"] = x + "\n", ex + "\n"  # what the lexer gets, character level (TextLayout.seg)
     # the edited text is re-segmented by the real lexer: it must give back the edited pieces (else the edit fell inside a token)
     rp, rprob = segment(econtent + "\n")
     obs["reseg_same"] = (rprob is None and rp == ep)
@@ -1412,6 +1414,24 @@ def run_impl(case):
 # ============================================================================================ model side
 
 MAX_MODEL_PIECES = 6000
+MAX_TEXTSEG_CHARS = int(os.environ.get("VERIF_C13_TEXTSEG", "4000"))
+
+
+def token_table(pieces):
+    """[offset, type, length] of the body tokens of a segmentation = the oracle of the character-level scanner"""
+    out, pos = [], 0
+    for p in pieces:
+        k = p[0]
+        if k == "t":
+            out.append([pos, p[1], len(p[2])])
+            pos += len(p[2])
+        elif k == "c":
+            pos += len(p[1])
+        elif k == "n":
+            pos += 2 if p[1] else 1
+        else:
+            pos += 1
+    return out
 
 
 def _edits_of(case, obs):
@@ -1431,6 +1451,10 @@ def model_requests(case, obs):
             reqs.append({"m": "C13.layout", "pieces": obs["mpieces"], "k": edits[0]["k"]})
         if "pre" in obs:
             reqs += [{"m": "C13.preexpand", "lines": obs["pre_in"][0]}, {"m": "C13.preexpand", "lines": obs["pre_in"][1]}]
+        if "mtext" in obs:
+            # character level: Lean scans the text itself; only WHICH body terminal starts where (and how long it is) comes from the real lexer
+            reqs += [{"m": "C13.textseg", "text": obs["mtext"], "toks": token_table(obs["mpieces"])},
+                     {"m": "C13.textseg", "text": obs["metext"], "toks": token_table(obs["mepieces"])}]
         return reqs
     if obs.get("version") == "1.0" and k in ("v1", "file"):
         if not HAVE_NUMBERED:
@@ -1533,6 +1557,14 @@ def compare(case, obs, mouts):
     k = case["kind"]
     mouts = _unsafe(mouts)
     if obs.get("version") == "2.x" and k in ("tok", "v2", "file"):
+        if "mtext" in obs and len(mouts) >= 2 and all(("seg" in m or "segerr" in m) for m in mouts[-2:]):
+            for m, real, what in zip(mouts[-2:], (obs["mpieces"], obs["mepieces"]), ("original", "edited")):
+                if "segerr" in m:
+                    return f"character-level scanner ({what} text): model says {m['segerr']}, the real lexer segmented the text into {len(real)} pieces"
+                if m["seg"] != real:
+                    i = next((i for i, (a, b) in enumerate(zip(real, m["seg"])) if a != b), min(len(real), len(m["seg"])))
+                    return f"character-level scanner ({what} text): piece {i}: real lexer {real[i:i+2]} model {m['seg'][i:i+2]}"
+            mouts = mouts[:-2]
         d = _cmp_stream(obs["stream"], mouts[0], "original text") or _cmp_stream(obs["estream"], mouts[1], "edited text")
         if d:
             return d
